@@ -87,6 +87,9 @@ func c14Scenarios(tier string) []Spec {
 					if m := structural(l.l); m != "" {
 						fs = append(fs, sched.Finding{Key: "final:" + strings.Split(m, ":")[0], What: l.n + " final state: " + m})
 					}
+					if w.truncated {
+						continue // a size-bounded merge into this log cut its history on purpose
+					}
 					if miss := missingPast(l.l, w.universe()); len(miss) > 0 {
 						fs = append(fs, sched.Finding{Key: "final:not-causally-closed", What: fmt.Sprintf("%s lacks predecessors %v of entries it holds", l.n, miss)})
 					}
@@ -124,6 +127,7 @@ func c14Scenarios(tier string) []Spec {
 		v := v
 		add(v.name, 2, b2, func(w *w13) ([]func(), func() []sched.Finding) {
 			src, oth := v.src(w), v.oth(w)
+			w.truncated = true
 			a0, s0 := setOf(w.a), setOf(src)
 			return []func(){func() { w.joinOp(0, w.a, src, -1, "join:A<-src") }, func() { w.joinOp(1, src, oth, 1, "join1:src<-other") }},
 				func() []sched.Finding {
